@@ -11,7 +11,7 @@ RULE = ("random documented-valid calls of anneal_qubo/quso/pubo/puso: model as d
         "initial_state or none; both orders; seed None/0/5/2^31-1; num_anneals in {-1,0,1,3,7}. The extension is "
         "rebuilt from the working tree with the H2 hook. Non-trivial = model with >= 2 variables, >= 2 terms and "
         "num_anneals >= 1; distinct = digest of (function, type, terms, kwargs)"
-        " Also: user mappings listed in shuffled order, coefficients needing more than 24 significant bits (H2 must report zero deviation), kwargs and initial states spelled as numpy scalars, constrained PCBO/PCSO inputs with slack ancillas, one-shot iterator schedules, scribbling on returned states then the same call again, a second anneal after in-place edits (for the spin kernels' own labelled types the states must cover exactly model.variables, also with a complete initial_state).")
+        " Also: user mappings listed in shuffled order, coefficients needing more than 24 significant bits (H2 must report zero deviation), kwargs and initial states spelled as numpy scalars, constrained PCBO/PCSO inputs with slack ancillas, one-shot iterator schedules, scribbling on returned states then the same call again, a second anneal after in-place edits (also with a complete initial_state; states name nothing outside model.variables).")
 TIERS = {"quick": {"shards": 8, "cases": 4000}, "thorough": {"shards": 16, "cases": 10000}}
 FLOOR_BASE = {"quick": 300, "thorough": 10000}    # case counts the floors below were calibrated for; the launcher scales them
 
